@@ -260,7 +260,10 @@ def run_check(pid, jobs, meta, workers=None):
             continue
         seen_known.add(k['key'])
         lines.append('KNOWN-FINDING: property=%s %s' % (pid, k['what']))
-    for i, r in enumerate(violations):
+    vio_keys = {}
+    for r in violations:
+        vio_keys.setdefault(r['key'], r)
+    for i, r in enumerate(vio_keys.values()):
         path = os.path.join(VERIF, 'replays', '%s-%d.json' % (pid, i))
         json.dump({'property': pid, 'obligation': r['name'], 'key': r['key'], 'model': r.get('model'), 'replay_detail': r.get('replay_detail'),
                    'info': r.get('info')}, open(path, 'w'), indent=1, default=str)
